@@ -54,6 +54,7 @@ const std::vector<NodeFactory>& factories() { return factoryList(); }
 
 thread_local std::vector<AssertHit>* g_assertSink = nullptr;
 thread_local std::jmp_buf* g_assertJump = nullptr;
+thread_local bool (*g_assertPolicy)(const char*) = nullptr;
 thread_local long g_libAllocs = 0;
 thread_local int  g_inLibrary = 0;
 
@@ -71,7 +72,7 @@ static void recordHit(const char* expr, const char* file, int line) {
 			h.file = base;
 			vf::g_assertSink->push_back(h);
 		}
-		if (vf::g_assertJump) { std::jmp_buf* j = vf::g_assertJump; vf::g_assertJump = nullptr; std::longjmp(*j, 1); }
+		if (vf::g_assertJump && (!vf::g_assertPolicy || vf::g_assertPolicy(expr))) { std::jmp_buf* j = vf::g_assertJump; vf::g_assertJump = nullptr; std::longjmp(*j, 1); }
 	} else {
 		std::fprintf(stderr, "hfsm2 assertion outside a run: %s at %s:%d\n", expr, file, line);
 	}
